@@ -18,7 +18,8 @@ from fractions import Fraction
 
 from vf.core import REPO, MachineryError
 
-CHAR = {"SP": " ", "DQ": '"', "BS": "\\", "SQ": "'", "NL": "\n", "TAB": "\t", "QM": "?"}
+CHAR = {"SP": " ", "DQ": '"', "BS": "\\", "SQ": "'", "NL": "\n", "TAB": "\t", "QM": "?",
+        "BEL": "\a", "BSP": "\b", "FF": "\f", "CR": "\r", "VT": "\v"}
 
 
 def chars_to_text(names):
